@@ -28,6 +28,11 @@ pub use responder::CaseResponder;
 pub use resumption::{ResumableSession, ResumableSessions, MAX_RESUMPTION_RECORDS};
 
 pub(crate) mod casep;
+/// Verification-harness access to the CASE protocol helper (`CaseP::validate_certs` etc.).
+#[cfg(feature = "verif")]
+pub mod verif_casep {
+    pub use super::casep::*;
+}
 mod initiator;
 mod responder;
 #[cfg(feature = "case-resumption")]
